@@ -97,8 +97,8 @@ CHECKS.update({
  'C04': dict(
    technique='harness-enforced step contracts (CBMC) with a ghost life cycle per request (queued/current/finished/deleted) carried by the Queue/BusRequest stubs',
    level='proof',
-   text='Sequential ownership discipline: in every step a request is completed only while it is the current one and at most once per submission, re-queued only before completion or when its completion asks for a restart, deleted or handed to its waiter exactly once after completion, never read after that, and no request is left current without being referenced (no loss).',
-   note=TB + 'NOT decided: thread schedules (Queue critical sections are trusted atomic), liveness ("eventually"), sendAndWait/addRequest, Poll/ScanRequest::notify restart decisions; drain loop on signal loss checked for queues up to 2 pending requests (bounded).',
+   text='Sequential ownership discipline: in every step a request is completed only while it is the current one and at most once per submission, re-queued only before completion or when its completion asks for a restart, deleted or handed to its waiter exactly once after completion, never read after that, and no request is left current without being referenced (no loss). Restart decisions (unit scanreq): PollRequest::notify asks for a restart only after a successful exchange for the next part of a chained message with its telegram prepared; ScanRequest::notify never restarts on signal loss, every restart strictly decreases a progress measure (slaves left, messages left, generic->specific scan message, parts left) so a scan ends after finitely many restarts, and a scan request that does not restart reports the scan as finished exactly once. ProtocolHandler::sendAndWait retry policy: unit sendwait.',
+   note=TB + 'NOT decided: thread schedules (Queue critical sections are trusted atomic), liveness of the bus thread itself ("eventually"), the blocking wait in addRequest; drain loop on signal loss checked for queues up to 2 pending requests (bounded).',
    ref='DESIGN.md 5 (C04)'),
 })
 
